@@ -16,7 +16,9 @@ fn document() -> Value {
         "a": "same", "b": "same", "c": "same", "d": "same", "keep": 1,
         "addr": {"w": "same", "x": "same", "y": "same", "z": "same", "keep": 2,
                  "deep": {"p": 1, "q": 2, "r": 3, "s": 4}},
-        "list": ["same", "same", {"k1": 1, "k2": 2, "k3": 3, "k4": 4}, {"m1": 1, "m2": 2, "m3": 3, "m4": 4}]
+        "list": ["same", "same", {"k1": 1, "k2": 2, "k3": 3, "k4": 4}, {"m1": 1, "m2": 2, "m3": 3, "m4": 4}],
+        "addr2": {"geo": {"a": 1, "b": 2, "c": 3, "d": 4}, "keep": 3},
+        "degrees": [{"t": 1, "u": 2, "y": 3, "g": 4}]
     })
 }
 
@@ -26,9 +28,13 @@ const PATHS: &[&str] = &[
     "/addr/w", "/addr/x", "/addr/y", "/addr/z",
     "/list/2/k1", "/list/2/k2", "/list/2/k3", "/list/2/k4",
     "/list/3/m1", "/list/3/m2", "/list/3/m3", "/list/3/m4",
+    "/addr2/geo/a", "/addr2/geo/b", "/addr2/geo/c", "/addr2/geo/d",
+    "/degrees/0/t", "/degrees/0/u", "/degrees/0/y", "/degrees/0/g",
     "/list/0", "/list/1",
     "/list/3",        // a disclosed ARRAY ELEMENT whose value contains a 4-digest list
     "/addr/deep",     // a disclosed member value that itself contains a 4-digest list
+    "/addr2",         // a disclosed value with a 4-digest list inside a sub-object that is NOT itself disclosable
+    "/degrees",       // a disclosed array with a 4-digest list inside one of its elements
 ];
 
 fn collect_sd_lists(v: &Value, path: &str, out: &mut Vec<(String, Vec<String>)>) {
@@ -45,7 +51,7 @@ fn collect_sd_lists(v: &Value, path: &str, out: &mut Vec<(String, Vec<String>)>)
 }
 
 pub fn run(ctx: &mut Ctx, _replay: Option<&Value>) {
-    ctx.report.rule = "long histories of Issuer::encode on a fixed document with equal sibling values (24 disclosable paths incl. nested lists of 4 below objects and below array elements, and a disclosed member value and a disclosed array element each containing a list of 4), decoy maximum cycling through 1..50, every 8th issuance reusing the same Issuer object three times: every salt decodes to >= 16 bytes; salts, disclosure digests and decoys pairwise distinct over the whole history; decoys never equal a real digest, 43 base64url characters like real digests, count in [1,max]; per digest list, the order over >= 200 issuances is not constantly the marking order; quick >= 4*10^5 decoys and >= 5*10^4 disclosures, thorough >= 6*10^6 and >= 10^6; non-trivial = every issuance (distinct by its fresh salts)".to_string();
+    ctx.report.rule = "long histories of Issuer::encode on a fixed document with equal sibling values (34 disclosable paths incl. lists inside non-disclosable sub-containers of disclosed values, nested lists of 4 below objects and below array elements, and a disclosed member value and a disclosed array element each containing a list of 4), decoy maximum cycling through 1..50, every 8th issuance reusing the same Issuer object three times: every salt decodes to >= 16 bytes; salts, disclosure digests and decoys pairwise distinct over the whole history; decoys never equal a real digest, 43 base64url characters like real digests, count in [1,max]; per digest list, the order over >= 200 issuances is not constantly the marking order; quick >= 4*10^5 decoys and >= 5*10^4 disclosures, thorough >= 6*10^6 and >= 10^6; non-trivial = every issuance (distinct by its fresh salts)".to_string();
     let (want_decoys, want_discs) = if ctx.tier_thorough { (6_000_000usize, 1_000_000usize) } else { (400_000usize, 50_000usize) };
     let scale = ctx.cases.map(|c| c as usize);
     let enc = keys::enc_key(0, 0);
@@ -66,7 +72,7 @@ pub fn run(ctx: &mut Ctx, _replay: Option<&Value>) {
         let out = real::guard(|| {
             let mut issuer = Issuer::new(doc.clone())?;
             // every 4th issuance marks only nested members / array elements (no top-level `_sd` of its own)
-            if i % 4 == 3 { for p in &PATHS[4..23] { issuer.disclosable(p); } } else { for p in PATHS { issuer.disclosable(p); } }
+            if i % 4 == 3 { for p in &PATHS[4..31] { issuer.disclosable(p); } } else { for p in PATHS { issuer.disclosable(p); } }
             issuer.decoy(max);
             let mut h = Header::new(Algorithm::HS256);
             h.typ = Some("sd-jwt".into());
@@ -145,8 +151,8 @@ pub fn run(ctx: &mut Ctx, _replay: Option<&Value>) {
             ctx.report.diff("property", "Issuer::encode", &format!("sd-order:always-marking-order:{}", loc), &case, json!({"issuances": n}));
         }
     }
-    if order_stats.len() < 5 {
-        ctx.report.diff("internal", "C13", "expected-five-digest-lists", &case, json!({"lists": order_stats.keys().collect::<Vec<_>>()}));
+    if order_stats.len() < 7 {
+        ctx.report.diff("internal", "C13", "expected-seven-digest-lists", &case, json!({"lists": order_stats.keys().collect::<Vec<_>>()}));
     }
     ctx.report.bump_by("decoys", n_decoys as u64);
     ctx.report.bump_by("disclosures", n_discs as u64);
